@@ -98,7 +98,9 @@ RefVerdict(tr, root, reacts) ==
            vs == { Ver(u) : u \in {1, 2} }
        IN IF "bad" \in vs THEN "bad" ELSE IF "na" \in vs THEN "na" ELSE "ok"
 \* side-effect operators act for every subscription: with tap at the root, each stimulus shows the same events on the tap as at the sinks
-TapOK(tr, root) == root.op = "tap" =>
+RECURSIVE NTaps(_)
+NTaps(t) == (IF t.op = "tap" THEN 1 ELSE 0) + (IF t.in = <<>> THEN 0 ELSE NTaps(t.in[1]) + (IF Len(t.in) > 1 THEN NTaps(t.in[2]) ELSE 0))
+TapOK(tr, root) == (root.op = "tap" /\ NTaps(root) = 1) =>
   \A i \in 1..Len(tr) : LET P(o) == LET s == SelectSeq(tr[i].obs, LAMBDA e : e.o = o) IN [j \in 1..Len(s) |-> <<s[j].k, s[j].v>>] IN P("tap") = P("cb")
 
 HasReact(c) == c.react.unsub_at # 0 \/ c.react.emit_at # 0 \/ c.react.sub_at # 0
